@@ -102,7 +102,9 @@ func resolveConfigsEnvironment(dict map[string]any, environment types.Mapping) {
 			continue
 		}
 		if found, ok := environment[env]; ok {
-			config["content"] = found
+			// carried like a secret's value: `content` next to `environment` does not validate once the
+			// model is imported by an including file
+			config[types.SecretConfigXValue] = found
 		}
 		configs[name] = config
 	}
